@@ -21,7 +21,7 @@ def unique_key_identity(model: Model, K: RuleResult):
     f = model.func(EM, "EditableModule._get_unique_params_idxs")
     sem = _unique_idxs_semantic(f)
     if sem is True:
-        K.ok(f.fq, "abstract run over [T0, T1, T0, T2, T1]: unique positions [0, 1, 3], alias map [[0, 2], [1, 4], [3]] (de-duplication by object identity)")
+        K.ok(f.fq, "abstract run over [T0, T1, T0, T2, T1] and [T0, T0, T1, T2, T1]: unique positions and alias maps as expected (de-duplication by object identity, groups numbered by order of first appearance)")
         return
     if isinstance(sem, str):
         K.bad(f, f.node, "parameter de-duplication must be keyed on object identity id(<tensor>); with any other key two different tensors that share "
@@ -58,27 +58,29 @@ def _unique_idxs_semantic(f):
     from ..domains.dictsem import Unsupported, Raised, _Return, Tok, ADict
     me, pm, pa = f.params()[:3]
     t = [Tok("T0", is_tensor=True), Tok("T1", is_tensor=True), Tok("T2", is_tensor=True)]
-    allp = [t[0], t[1], t[0], t[2], t[1]]
-    it = KindInterp({me: AObj("module", ("EditableModule",)), pm: "m", pa: list(allp)})
-    try:
+    # two alias patterns: in the second one an alias follows a later unique tensor that itself follows a duplicate (position != group number)
+    for pattern, w_idx, w_map in (([0, 1, 0, 2, 1], [0, 1, 3], [[0, 2], [1, 4], [3]]), ([0, 0, 1, 2, 1], [0, 2, 3], [[0, 1], [2, 4], [3]])):
+        allp = [t[k] for k in pattern]
+        it = KindInterp({me: AObj("module", ("EditableModule",)), pm: "m", pa: list(allp)})
         try:
-            it.run(f.node.body)
-            ret = None
-        except _Return as r:
-            ret = r.v
-    except Unsupported:
-        return None
-    except Raised as e:
-        return "raises %s" % e
+            try:
+                it.run(f.node.body)
+                ret = None
+            except _Return as r:
+                ret = r.v
+        except (Unsupported, TypeError, AttributeError, KeyError, ValueError):
+            return None
+        except (Raised, IndexError) as e:
+            return "parameters %s raise %s" % (["T%d" % k for k in pattern], e)
 
-    def entry(attr):
-        d = it.env.get("%s.%s" % (me, attr))
-        return d.data.get("m") if isinstance(d, ADict) else None
-    idxs, maps, num = entry("_unique_params_idxs"), entry("_unique_params_maps"), entry("_number_of_params")
-    if idxs is None or maps is None:
-        return None
-    if list(idxs) != [0, 1, 3] or [list(m_) for m_ in maps] != [[0, 2], [1, 4], [3]] or num != 5 or ret is None or list(ret) != [0, 1, 3]:
-        return "parameters [T0, T1, T0, T2, T1] give unique positions %r, alias map %r, count %r, returned %r" % (idxs, maps, num, ret)
+        def entry(attr):
+            d = it.env.get("%s.%s" % (me, attr))
+            return d.data.get("m") if isinstance(d, ADict) else None
+        idxs, maps, num = entry("_unique_params_idxs"), entry("_unique_params_maps"), entry("_number_of_params")
+        if idxs is None or maps is None:
+            return None
+        if list(idxs) != w_idx or [list(m_) for m_ in maps] != w_map or num != 5 or ret is None or list(ret) != w_idx:
+            return "parameters %s give unique positions %r, alias map %r, count %r, returned %r (expected %r, %r)" % (["T%d" % k for k in pattern], idxs, maps, num, ret, w_idx, w_map)
     return True
 
 
